@@ -5,7 +5,8 @@ import ast
 
 from sa.astx import NotConst, call_attr, call_name, const_eval, lincmp, src, walk_local
 from sa.selftest import Mutant, Silent
-from sa.props._lib_j import leaf_values, rsrc, body_always_entered, normalise, run_sections, all_paths, asserted_is, edge_asserts, is_self_attr, no_exc, node_calls, normal_exits, params, resolve
+from sa.source import AnalysisError
+from sa.props._lib_j import leaf_values, local_defs, rsrc, body_always_entered, normalise, run_sections, all_paths, asserted_is, edge_asserts, is_self_attr, no_exc, node_calls, normal_exits, params, resolve
 
 PROPERTY = "C53"
 LOG = "python/logfile.py"
@@ -117,44 +118,129 @@ def _order_after(call, state):
 
 def _s_listlogs(ctx, S):
     # ================= listLogs: ascending integers ============================================================
+    # Two ways of building the result are read: a list variable filled by append() and sorted in place, or sorted(<comprehension / generator / list>).
     f = ctx.func(LOG, "LogFile.listLogs")
     g = ctx.cfg(f)
     q = QL + ".listLogs"
+    mod = ctx.mod(LOG)
     rets = [x for x in normal_exits(g)]
-    def ret_list(x):
-        """(list variable, 'name' | 'sorted' | 'sorted-desc') for `return v` / `return sorted(v)`."""
-        st = g.node(x).ast
-        v = st.value if isinstance(st, ast.Return) else None
-        if isinstance(v, ast.Name):
-            return v.id, "name"
-        if isinstance(v, ast.Call) and call_name(v) == "sorted" and len(v.args) == 1 and isinstance(v.args[0], ast.Name) and not any(k.arg == "key" for k in v.keywords):
-            return v.args[0].id, ("sorted-desc" if any(k.arg == "reverse" and src(k.value) == "True" for k in v.keywords) else "sorted")
-        return None
-    ctx.need(rets and all(ret_list(x) for x in rets) and len({ret_list(x)[0] for x in rets}) == 1, "listLogs returns a list variable (or sorted(<it>))")
-    res = ret_list(rets[0])[0]
-    sorts = [n for n, c in node_calls(g, lambda c: call_name(c) == res + ".sort" and not c.keywords)]
-    muts = [n for n, c in node_calls(g, lambda c: isinstance(c.func, ast.Attribute) and src(c.func.value) == res and call_attr(c) in ("append", "extend", "insert", "reverse", "sort", "pop", "remove"))
-            if n not in sorts]
-    for x in rets:
-        w = g.must_precede(sorts, [x], exc=False)
-        late = [m for m in muts if any(g.path([s], [m], edge_ok=no_exc, strict=True) for s in sorts)]
-        how = ret_list(x)[1]
-        ctx.check(how == "sorted" or (how == "name" and bool(sorts) and w is None and not late), "order/listLogs-ascending", q,
-                  "listLogs() can return identifiers that are not sorted ascending (no sort() dominating the return, or the list is modified after "
-                  "sorting): rotate() then renames in the wrong order and overwrites retained logs", witness=g.describe(w))
-    apps = [c for n, c in node_calls(g, lambda c: call_name(c) == res + ".append")]
-    def int_leaves(c):
-        return leaf_values(f, c.args[0])
-    numeric = lambda v: (isinstance(v, ast.Call) and call_name(v) == "int") or (isinstance(v, ast.Constant) and isinstance(v.value, int) and not isinstance(v.value, bool))
-    ctx.check(bool(apps) and all(numeric(v) for c in apps for v, _, _ in int_leaves(c)), "order/listLogs-numeric", q,
-              "identifiers are not collected as integers: the sort is lexicographic ('10' < '2') and logs are rotated out of order")
-    for c in apps:
-        calls_ = [v for v, _, _ in int_leaves(c) if isinstance(v, ast.Call)]
-        ok = bool(calls_) and all(v.args and "split('.')[-1]" in rsrc(v.args[0], f) for v in calls_)
-        ctx.check(ok, "order/listLogs-identifier-is-last-component", ctx.construct(q, "<list>.append(<identifier>)"), "the identifier is not the last dot-separated component of the file name")
-    globs = [c for c in walk_local(f) if isinstance(c, ast.Call) and call_name(c) == "glob.glob"]
-    ctx.check(len(globs) == 1 and _render(globs[0].args[0], {}) == "P.*", "order/listLogs-sees-every-rotated-file", q, "listLogs() does not glob '<path>.*'")
+    ctx.need(rets and all(isinstance(g.node(x).ast, ast.Return) and g.node(x).ast.value is not None for x in rets), "listLogs returns a value on every path")
 
+    def sorted_call(v):
+        return isinstance(v, ast.Call) and call_name(v) == "sorted" and len(v.args) == 1 and not any(k.arg == "key" for k in v.keywords)
+
+    def elements(e, depth=0):
+        """expressions the elements of collection ``e`` are taken from (comprehensions are looked through, a loop variable over another collection stands for that
+        collection's elements); None when the shape is not read"""
+        if depth > 6:
+            return None
+        if isinstance(e, (ast.ListComp, ast.GeneratorExp, ast.SetComp)) and len(e.generators) >= 1:
+            bind = {}
+            for gen_ in e.generators:
+                if isinstance(gen_.target, ast.Name):
+                    bind[gen_.target.id] = gen_.iter
+            elt = e.elt
+            if isinstance(elt, ast.Name) and elt.id in bind:
+                return elements(bind[elt.id], depth + 1)
+            return [elt]
+        if isinstance(e, (ast.List, ast.Tuple)):
+            return list(e.elts)
+        if isinstance(e, ast.Call) and call_name(e) in ("list", "tuple", "sorted", "reversed", "iter", "filter") and e.args:
+            return elements(e.args[-1], depth + 1)
+        if isinstance(e, ast.Name):
+            out = []
+            for v, _, _ in leaf_values(f, e):
+                if isinstance(v, ast.Name):
+                    return None
+                if isinstance(v, ast.List) and not v.elts:
+                    continue
+                sub = elements(v, depth + 1)
+                if sub is None:
+                    return None
+                out += sub
+            out += [c.args[0] for n, c in node_calls(g, lambda c: call_name(c) == e.id + ".append" and c.args)]
+            return out
+        return None
+
+    def numeric(v, depth=0):
+        """v is an int for every input: int(...), an int literal, a local all of whose definitions are, or a private/module helper all of whose returns are"""
+        if isinstance(v, ast.Call) and call_name(v) == "int":
+            return [v]
+        if isinstance(v, ast.Constant) and isinstance(v.value, int) and not isinstance(v.value, bool):
+            return []
+        if isinstance(v, ast.Name):
+            ls = leaf_values(f, v)
+            if any(isinstance(x, ast.Name) for x, _, _ in ls):
+                return None
+            outs = [numeric(x, depth + 1) for x, _, _ in ls]
+            return None if any(o is None for o in outs) else [c for o in outs for c in o]
+        if isinstance(v, ast.Call) and depth < 3:
+            nm = call_name(v) or ""
+            h = mod.find(nm) if "." not in nm else (mod.find("LogFile." + nm.split(".", 1)[1]) if nm.startswith("self.") else None)
+            if isinstance(h, ast.FunctionDef):
+                outs = []
+                for r in [x for x in walk_local(h) if isinstance(x, ast.Return)]:
+                    if r.value is None:
+                        return None
+                    for x, _, _ in leaf_values(h, r.value):
+                        o = numeric_in(h, x)
+                        if o is None:
+                            return None
+                        outs += o
+                return outs
+        return None
+
+    def numeric_in(h, v):
+        if isinstance(v, ast.Call) and call_name(v) == "int":
+            return [(h, v)]
+        if isinstance(v, ast.Constant) and isinstance(v.value, int) and not isinstance(v.value, bool):
+            return []
+        return None
+    src_list = None
+    asc = True
+    for x in rets:
+        v = g.node(x).ast.value
+        if sorted_call(v):
+            if any(k.arg == "reverse" and src(k.value) == "True" for k in v.keywords):
+                asc = False
+            src_list = v.args[0]
+        elif isinstance(v, ast.Name):
+            res = v.id
+            sorts = [n for n, c in node_calls(g, lambda c: call_name(c) == res + ".sort" and not c.keywords)]
+            muts = [n for n, c in node_calls(g, lambda c: isinstance(c.func, ast.Attribute) and src(c.func.value) == res and call_attr(c) in ("append", "extend", "insert", "reverse", "sort", "pop", "remove"))
+                    if n not in sorts]
+            w = g.must_precede(sorts, [x], exc=False)
+            late = [m for m in muts if any(g.path([s_], [m], edge_ok=no_exc, strict=True) for s_ in sorts)]
+            by_def = [d for d, _, _ in leaf_values(f, v) if sorted_call(d)]
+            if not (bool(sorts) and w is None and not late) and not by_def:
+                asc = False
+            src_list = v
+        else:
+            raise AnalysisError(f"listLogs returns {src(v)}: neither a list variable nor sorted(<collection>)")
+    ctx.check(asc, "order/listLogs-ascending", q,
+              "listLogs() can return identifiers that are not sorted ascending (no sort() dominating the return, a descending sort, or the list is modified after "
+              "sorting): rotate() then renames in the wrong order and overwrites retained logs")
+    elts = elements(src_list)
+    ctx.need(elts, "the expressions listLogs collects its identifiers from")
+    ints = []
+    ok_num = True
+    for e in elts:
+        o = numeric(e)
+        if o is None:
+            ok_num = False
+        else:
+            ints += o
+    ctx.check(ok_num, "order/listLogs-numeric", q,
+              "identifiers are not collected as integers: the sort is lexicographic ('10' < '2') and logs are rotated out of order")
+    last_forms = ("split('.')[-1]", "rpartition('.')[2]", "rpartition('.')[-1]", "rsplit('.', 1)[-1]", "rsplit('.', 1)[1]")
+    for c in ints:
+        h, call = c if isinstance(c, tuple) else (f, c)
+        txt = rsrc(call.args[0], h) if call.args else ""
+        ctx.check(any(t in txt for t in last_forms), "order/listLogs-identifier-is-last-component", ctx.construct(q, "int(<last dot-separated component>)"),
+                  "the identifier is not the last dot-separated component of the file name")
+    ctx.check(bool(ints), "order/listLogs-identifier-is-last-component", q, "no int(<component>) conversion found for the identifiers")
+    globs = [c for c in ast.walk(f) if isinstance(c, ast.Call) and call_name(c) == "glob.glob"]
+    ctx.check(len(globs) == 1 and _render(globs[0].args[0], {}) == "P.*", "order/listLogs-sees-every-rotated-file", q, "listLogs() does not glob '<path>.*'")
 
 
 def _s_rotate(ctx, S):
@@ -162,50 +248,88 @@ def _s_rotate(ctx, S):
     f = ctx.func(LOG, "LogFile.rotate")
     g = ctx.cfg(f)
     q = QL + ".rotate"
-    loops = [n for n in g.nodes if n.kind == "for" and g.reachable(n.id)]
-    if not loops:
-        ctx.violation("shift/every-file-moved-or-removed", ctx.construct(q, "loop body"), "rotate() does not shift the older files at all: renaming the current "
-                      "file to path.1 overwrites the previous path.1")
-        return
-    ctx.need(len(loops) == 1, "single for loop in LogFile.rotate")
-    lp = loops[0]
-    it = lp.ast.iter
-    var = src(lp.ast.target)
-    # typestate of the iterated list on every path from its definition to the loop
-    base = it
-    flip = False
-    if isinstance(it, ast.Call) and call_name(it) == "reversed" and it.args:
-        base, flip = it.args[0], True
-    state_at_loop = set()
-    if isinstance(base, ast.Name):
-        defs = [n for n in g.nodes if n.kind == "stmt" and g.reachable(n.id) and isinstance(n.ast, ast.Assign) and any(src(t) == base.id for t in n.ast.targets)]
-        ctx.need(defs, f"definition of {base.id} in rotate")
-        for d in defs:
-            v = d.ast.value
-            init = "ASC" if isinstance(v, ast.Call) and call_name(v) == "self.listLogs" else \
-                   ("ASC" if isinstance(v, ast.Call) and call_name(v) == "sorted" and v.args and src(v.args[0]) == "self.listLogs()" and not v.keywords else
-                    ("DESC" if isinstance(v, ast.Call) and call_name(v) == "sorted" and any(k.arg == "reverse" and src(k.value) == "True" for k in v.keywords) else "?"))
-            for path in all_paths(g, d.id, {lp.id}):
+    # the shifting loop, read by role: head node, loop variable, body entry, and the ORDER in which the identifiers are visited.  Forms read:
+    #   for i in <list>            for i in reversed(<list>)         for i in <list>[::-1]        while <list>: i = <list>.pop()   (or .pop(0))
+    def initial_order(v):
+        if isinstance(v, ast.Call) and call_name(v) == "self.listLogs":
+            return "ASC"
+        if isinstance(v, ast.Call) and call_name(v) == "sorted" and v.args and src(v.args[0]) == "self.listLogs()" and not any(k.arg == "key" for k in v.keywords):
+            return "DESC" if any(k.arg == "reverse" and src(k.value) == "True" for k in v.keywords) else "ASC"
+        if isinstance(v, ast.Call) and call_name(v) in ("list", "tuple") and len(v.args) == 1:
+            return order_of_expr(v.args[0], None)
+        return "?"
+
+    def flipped(st):
+        return {"ASC": "DESC", "DESC": "ASC"}.get(st, "?")
+
+    def order_of_name(name, at):
+        """set of orders the list variable ``name`` can be in when control reaches node ``at`` (typestate over every path from each of its definitions)"""
+        out = set()
+        dnodes = [n for n in g.nodes if n.kind == "stmt" and g.reachable(n.id) and isinstance(n.ast, ast.Assign) and any(src(t) == name for t in n.ast.targets)]
+        if not dnodes:
+            return {"?"}
+        for d in dnodes:
+            init = order_of_expr(d.ast.value, None)
+            for path in all_paths(g, d.id, {at}):
                 st = init
                 for nid in path[1:-1]:
                     n = g.node(nid)
                     if n.ast is None or n.kind != "stmt":
                         continue
                     for c in walk_local(n.ast):
-                        if isinstance(c, ast.Call) and isinstance(c.func, ast.Attribute) and src(c.func.value) == base.id:
-                            st = _order_after(c, st) if call_attr(c) in ("reverse", "sort") else ("?" if call_attr(c) in ("append", "insert", "extend", "pop", "remove") else st)
-                if flip:
-                    st = {"ASC": "DESC", "DESC": "ASC"}.get(st, "?")
-                state_at_loop.add(st)
-    elif isinstance(base, ast.Call) and call_name(base) == "self.listLogs":
-        state_at_loop.add("DESC" if flip else "ASC")
+                        if isinstance(c, ast.Call) and isinstance(c.func, ast.Attribute) and src(c.func.value) == name:
+                            st = _order_after(c, st) if call_attr(c) in ("reverse", "sort") else ("?" if call_attr(c) in ("append", "insert", "extend", "remove") else st)
+                out.add(st)
+        return out or {"?"}
+
+    def order_of_expr(e, at):
+        if isinstance(e, ast.Call) and call_name(e) == "reversed" and len(e.args) == 1:
+            return flipped(order_of_expr(e.args[0], at))
+        if isinstance(e, ast.Subscript) and isinstance(e.slice, ast.Slice) and e.slice.lower is None and e.slice.upper is None:
+            step = src(e.slice.step) if e.slice.step is not None else "1"
+            inner = order_of_expr(e.value, at)
+            return inner if step == "1" else (flipped(inner) if step == "-1" else "?")
+        if isinstance(e, ast.Name):
+            if at is None:
+                return "?"
+            sts = order_of_name(e.id, at)
+            return next(iter(sts)) if len(sts) == 1 else "?"
+        return initial_order(e)
+
+    fors = [n for n in g.nodes if n.kind == "for" and g.reachable(n.id)]
+    whiles = [n for n in g.nodes if n.kind == "join" and isinstance(n.ast, ast.While) and g.reachable(n.id)]
+    if not fors and not whiles:
+        ctx.violation("shift/every-file-moved-or-removed", ctx.construct(q, "loop body"), "rotate() does not shift the older files at all: renaming the current "
+                      "file to path.1 overwrites the previous path.1")
+        return
+    ctx.need(len(fors) + len(whiles) == 1, "single shifting loop in LogFile.rotate")
+    if fors:
+        lp = fors[0]
+        head, var = lp.id, src(lp.ast.target)
+        entry = [d for d, l in g.succ[head] if l == "iter"]
+        state_at_loop = {order_of_expr(lp.ast.iter, head)}
     else:
-        state_at_loop.add("?")
+        lp = whiles[0]
+        head = lp.id
+        pops = [a for a in ast.walk(lp.ast) if isinstance(a, ast.Assign) and len(a.targets) == 1 and isinstance(a.targets[0], ast.Name) and isinstance(a.value, ast.Call)
+                and call_attr(a.value) in ("pop", "popleft") and isinstance(a.value.func.value, ast.Name)]
+        ctx.need(len(pops) == 1, "`<i> = <list>.pop()` in the while loop of rotate")
+        lst = pops[0].value.func.value.id
+        var = pops[0].targets[0].id
+        tst = lp.ast.test
+        lc = lincmp(tst)
+        ctx.need(src(tst) == lst or (lc is not None and dict(lc[0]) == {f"len({lst})": 1} and lc[1] == 1), f"`while {lst}:` (runs until the list is exhausted)")
+        entry = [n.id for n in g.nodes if n.ast is lp.ast.body[0] and g.reachable(n.id)]
+        a0 = pops[0].value.args[0] if pops[0].value.args else None
+        from_front = call_attr(pops[0].value) == "popleft" or (a0 is not None and src(a0) == "0")
+        from_back = call_attr(pops[0].value) == "pop" and (a0 is None or src(a0) == "-1")
+        base_orders = order_of_name(lst, head)
+        state_at_loop = {(st_ if from_front else flipped(st_)) if (from_front or from_back) else "?" for st_ in base_orders}
     ctx.check(state_at_loop == {"DESC"}, "order/rotate-highest-first", ctx.construct(q, "for <i> in <logs>"),
               f"the rotated files are walked in order {sorted(state_at_loop)} instead of highest identifier first: renaming i -> i+1 overwrites the "
               f"not-yet-moved file i+1 (its content is lost and the rest is shifted wrongly)")
 
-    body_nodes = g.reach([d for d, l in g.succ[lp.id] if l == "iter"], avoid=[lp.id])
+    body_nodes = g.reach(entry, avoid=[head])
     renames = [(n, c) for n, c in node_calls(g, lambda c: call_name(c) in ("os.rename", "os.replace")) if n in body_nodes]
     removes = [(n, c) for n, c in node_calls(g, lambda c: call_name(c) in ("os.remove", "os.unlink")) if n in body_nodes]
     ctx.check(len(renames) == 1, "shift/rename-i-to-i-plus-1", q, f"{len(renames)} shifting renames in the loop (one expected)")
@@ -231,20 +355,20 @@ def _s_rotate(ctx, S):
                   f"kept")
     # every iteration handles file i
     acts = [n for n, _ in renames + removes]
-    w = g.path([d for d, l in g.succ[lp.id] if l == "iter"], [lp.id], avoid=acts, edge_ok=no_exc)
+    w = g.path(entry, [head], avoid=acts, edge_ok=no_exc)
     ctx.check(w is None, "shift/every-file-moved-or-removed", ctx.construct(q, "loop body"),
               "an iteration can leave file i in place: the next rename (i-1 -> i) overwrites it", witness=g.describe(w))
     for n in acts:
         # a failing rename/remove of file i must abort the rotation: if it is swallowed, the next rename (i-1 -> i) overwrites file i
         starts = [d for d, l in g.succ[n] if l == "exc"]
-        w = g.path(starts, [lp.id] + [x for x, _ in node_calls(g, lambda c: call_name(c) in ("os.rename", "os.replace")) if x not in body_nodes], strict=False) if starts else None
+        w = g.path(starts, [head] + [x for x, _ in node_calls(g, lambda c: call_name(c) in ("os.rename", "os.replace")) if x not in body_nodes], strict=False) if starts else None
         ctx.check(w is None, "shift/failed-shift-aborts-rotation", ctx.construct(q, g.node(n).ast if not isinstance(g.node(n).ast, ast.Try) else "shift"),
                   "an OSError from moving / removing file i is swallowed and the rotation goes on: the next rename (i-1 -> i, finally current -> .1) "
                   "overwrites the file that could not be moved - its content is lost", witness=g.describe(([n] + w) if w else None))
     for n, c in renames:
         # the rename branch is exactly the complement of the remove branch
         for rn, rc in removes:
-            ctx.check(g.path([n], [rn], avoid=[lp.id], edge_ok=no_exc) is None and g.path([rn], [n], avoid=[lp.id], edge_ok=no_exc) is None,
+            ctx.check(g.path([n], [rn], avoid=[head], edge_ok=no_exc) is None and g.path([rn], [n], avoid=[head], edge_ok=no_exc) is None,
                       "shift/every-file-moved-or-removed", ctx.construct(q, "rename xor remove"), "a file is both removed and renamed in one iteration")
 
     closes = [n for n, c in node_calls(g, lambda c: call_name(c) == "self._file.close")]
@@ -261,8 +385,8 @@ def _s_rotate(ctx, S):
         w = g.must_pass([n], opens, exc=False)
         ctx.check(w is None, "sequence/close-rename-open", ctx.construct(q, "reopen after rename"), "after the rename rotate() can return without opening a new file: later writes are lost",
                   witness=g.describe(w))
-        ctx.check(g.path([n], [lp.id], edge_ok=no_exc) is None and g.path([lp.id], [n], edge_ok=no_exc) is not None and
-                  g.must_precede([lp.id], [n], exc=False) is None, "sequence/shift-before-current", ctx.construct(q, "shift loop before final rename"),
+        ctx.check(g.path([n], [head], edge_ok=no_exc) is None and g.path([head], [n], edge_ok=no_exc) is not None and
+                  g.must_precede([head], [n], exc=False) is None, "sequence/shift-before-current", ctx.construct(q, "shift loop before final rename"),
                   "the current file is renamed to path.1 before the older files were shifted: path.1 is overwritten")
     # nothing is touched unless directory and file are writable
     access = {"os.access(self.directory, os.W_OK)", "os.access(self.path, os.W_OK)"}
@@ -304,17 +428,19 @@ def _s_write(ctx, S):
         ctx.check(bool(fl) and g.must_precede(fl, [r], exc=False) is None, "write/flush-before-rotate", ctx.construct(q, "self.flush()"), "the file is not flushed before rotation")
         for w_ in wr:
             ctx.check(g.path([w_], [r], edge_ok=no_exc) is None, "write/rotates-before-writing", ctx.construct(q, "rotate after write"), "rotation happens after the write")
-    encs = [(v, chain) for n, c in wcalls for v, _, chain in leaf_values(f, c.args[0]) if isinstance(v, ast.Call) and call_attr(v) == "encode"]
-    ok_enc = bool(encs) and all(v.args and "utf" in src(v.args[0]).lower().replace("-", "") for v, _ in encs)
-    # the encoding applies exactly to text: the statement that encodes is guarded by isinstance(data, str)
-    for v, chain in encs:
+    encs = [(v, chain, conds) for n, c in wcalls for v, conds, chain in leaf_values(f, c.args[0]) if isinstance(v, ast.Call) and call_attr(v) == "encode"]
+    ok_enc = bool(encs) and all(v.args and "utf" in src(v.args[0]).lower().replace("-", "") for v, _, _ in encs)
+    # the encoding applies exactly to text: the statement (or conditional-expression arm) that encodes is guarded by isinstance(data, str)
+    for v, chain, conds_ in encs:
         st_ = next((x for x in [getattr(v, "_parent", None)] + list(chain) if isinstance(x, ast.stmt)), None)
         p_ = v
         while st_ is None and p_ is not None:
             p_ = getattr(p_, "_parent", None)
             st_ = p_ if isinstance(p_, ast.stmt) else None
         nodes_ = [x.id for x in g.nodes if x.ast is st_ and g.reachable(x.id)] if st_ is not None else []
-        ok_enc = ok_enc and bool(nodes_) and all(g.guarded(x, lambda e: src(e) in (f"isinstance({data}, str)", f"type({data}) is str", f"type({data}) == str"), True) for x in nodes_)
+        is_text = (f"isinstance({data}, str)", f"type({data}) is str", f"type({data}) == str")
+        by_arm = any(src(t) in is_text and arm for t, arm in conds_)
+        ok_enc = ok_enc and (by_arm or (bool(nodes_) and all(g.guarded(x, lambda e: src(e) in is_text, True) for x in nodes_)))
     ctx.check(ok_enc, "write/text-encoded", q, "text is not encoded as UTF-8 (exactly when the data is str) before writing")
 
 
@@ -405,28 +531,82 @@ def _s_size(ctx, S):
 
 
 def _s_open(ctx, S):
+    """Each (open call, mode it can be given, condition under which) is judged: a truncating mode only when the file does not exist; a non-truncating one is
+    writable and - unless it appends - followed by a seek to the end.  The existence test may be spelled out, or recorded once in a boolean local."""
     f = ctx.func(LOG, "BaseLogFile._openFile")
     g = ctx.cfg(f)
     q = QB + "._openFile"
+    defs = local_defs(f, track_mutation=False)
+    EXISTS = ("os.path.exists(self.path)", "os.path.isfile(self.path)", "os.path.lexists(self.path)")
+
+    def exists_test(t):
+        """+1 / -1 when the (atomic) test t being true means the file exists / does not exist, else 0"""
+        neg = 1
+        while isinstance(t, ast.UnaryOp) and isinstance(t.op, ast.Not):
+            t, neg = t.operand, -neg
+        if src(t) in EXISTS:
+            return neg
+        if isinstance(t, ast.Name):
+            ds = defs.get(t.id, [])
+            if len(ds) == 1 and ds[0] is not None:
+                return neg * exists_test(ds[0])
+        return 0
+
+    def polarity(node, conds):
+        """True / False / None: the file is known to exist / not to exist / unknown at ``node`` under the conditional-expression arms ``conds``"""
+        votes = set()
+        for t, lab in edge_asserts(g, node):
+            e = exists_test(t)
+            if e:
+                votes.add((e > 0) == (lab == "T"))
+            # a conjunction recorded in a flag (`restrict = not appending and mode is not None`) taken as true makes each conjunct true
+            if lab == "T" and isinstance(t, ast.Name) and len(defs.get(t.id, [])) == 1 and isinstance(defs[t.id][0], ast.BoolOp) and isinstance(defs[t.id][0].op, ast.And):
+                for c_ in defs[t.id][0].values:
+                    e = exists_test(c_)
+                    if e:
+                        votes.add(e > 0)
+        for t, arm in conds:
+            e = exists_test(t)
+            if e:
+                votes.add((e > 0) == arm)
+        return next(iter(votes)) if len(votes) == 1 else None
     ops = node_calls(g, lambda c: call_name(c) == "open")
-    ctx.floor("open/existing-file-not-truncated", len(ops), 2, "open() calls in BaseLogFile._openFile")
-    exists = lambda e: src(e) == "os.path.exists(self.path)"
-    nontrunc = []
+    ctx.floor("open/existing-file-not-truncated", len(ops), 1, "open() calls in BaseLogFile._openFile")
+
+    def existing(a, b, l):
+        """edge filter: the paths on which the file exists (an existence test / flag is never taken the other way)"""
+        n = g.node(a)
+        if l == "exc":
+            return False
+        if n.kind == "test" and l in ("T", "F"):
+            e = exists_test(n.ast)
+            if e:
+                return (e > 0) == (l == "T")
+        return True
+    nontrunc = 0
+    covered = set()
     for n, c in ops:
-        mode = src(c.args[1]).strip("'\"") if len(c.args) > 1 else "r"
-        ctx.check(src(c.args[0]) == "self.path", "open/opens-own-path", ctx.construct(q, c), "another file than self.path is opened")
-        if "w" in mode:
-            ctx.check(g.guarded(n, exists, False), "open/existing-file-not-truncated", ctx.construct(q, c),
-                      "an existing log file is opened with truncation: everything logged before the reopen / restart is lost")
-        else:
-            nontrunc.append(n)
-            ctx.check("+" in mode or "a" in mode, "open/existing-file-not-truncated", ctx.construct(q, c), "the existing file is not opened for writing")
-            if "a" not in mode:
-                seeks = [s for s, sc in node_calls(g, lambda sc: call_name(sc) == "self._file.seek" and [src(a) for a in sc.args] in (["0", "2"], ["0", "os.SEEK_END"]))]
-                w = g.must_pass([n], seeks, exc=False)
-                ctx.check(bool(seeks) and w is None, "open/existing-file-positioned-at-end", ctx.construct(q, "seek(0, 2)"),
-                          "an existing log file is not positioned at its end: new data overwrites old data and size restarts at 0", witness=g.describe(w))
-    ctx.check(bool(nontrunc), "open/existing-file-not-truncated", q, "no non-truncating open for an existing file")
+        ctx.check(src(c.args[0]) == "self.path", "open/opens-own-path", ctx.construct(q, "open(self.path, <mode>)"), "another file than self.path is opened")
+        leaves = leaf_values(f, c.args[1]) if len(c.args) > 1 else [(ast.Constant("r"), (), ())]
+        for v, conds, _ in leaves:
+            if not (isinstance(v, ast.Constant) and isinstance(v.value, str)):
+                raise AnalysisError(f"open mode not readable: {src(v)}")
+            mode = v.value
+            pol = polarity(n, conds)
+            covered.add(pol)
+            where = ctx.construct(q, f"open(self.path, {mode!r})")
+            if "w" in mode:
+                ctx.check(pol is False, "open/existing-file-not-truncated", where,
+                          "an existing log file is opened with truncation: everything logged before the reopen / restart is lost")
+            else:
+                nontrunc += 1
+                ctx.check("+" in mode or "a" in mode, "open/existing-file-not-truncated", where, "the existing file is not opened for writing")
+                if "a" not in mode:
+                    seeks = [s_ for s_, sc in node_calls(g, lambda sc: call_name(sc) == "self._file.seek" and [src(a) for a in sc.args] in (["0", "2"], ["0", "os.SEEK_END"]))]
+                    w = g.path([n], [g.exit], avoid=seeks, edge_ok=existing, strict=True)
+                    ctx.check(bool(seeks) and w is None, "open/existing-file-positioned-at-end", ctx.construct(q, "seek(0, 2)"),
+                              "an existing log file is not positioned at its end: new data overwrites old data and size restarts at 0", witness=g.describe(w))
+    ctx.check(nontrunc > 0, "open/existing-file-not-truncated", q, "no non-truncating open for an existing file")
     w = g.must_pass([g.entry], [n for n, _ in ops], exc=False)
     ctx.check(w is None, "open/always-opens", q, "_openFile can return without a file", witness=g.describe(w))
 
@@ -504,6 +684,15 @@ SILENT = [
            "        if not self.rotateLength:\n            return self.rotateLength\n        return self.rotateLength <= self.size"),
     Silent("write-encodes-into-a-second-local", LOG, "        if isinstance(data, str):\n            data = data.encode(\"utf8\")\n        self._file.write(data)",
            "        if not isinstance(data, str):\n            payload = data\n        else:\n            payload = data.encode(\"utf8\")\n        self._file.write(payload)"),
+    Silent("rotate-consumes-list-with-pop", LOG, "        logs = self.listLogs()\n        logs.reverse()\n        for i in logs:\n", "        todo = self.listLogs()\n        while todo:\n            i = todo.pop()\n"),
+    Silent("rotate-slices-backwards", LOG, "        logs = self.listLogs()\n        logs.reverse()\n        for i in logs:\n", "        for i in self.listLogs()[::-1]:\n"),
+    Silent("listLogs-as-sorted-comprehension", LOG,
+           "        result = []\n        for name in glob.glob(\"%s.*\" % self.path):\n            try:\n                counter = int(name.split(\".\")[-1])\n                if counter:\n                    result.append(counter)\n            except ValueError:\n                pass\n        result.sort()\n        return result\n",
+           "        numbers = [_suffixNumber(name) for name in glob.glob(\"%s.*\" % self.path)]\n        return sorted(n for n in numbers if n)\n",
+           more=[(LOG, "class BaseLogFile:\n", "def _suffixNumber(name):\n    tail = name.rpartition(\".\")[2]\n    try:\n        return int(tail)\n    except ValueError:\n        return 0\n\n\nclass BaseLogFile:\n")]),
+    Silent("write-conditional-expression", LOG, "        if isinstance(data, str):\n            data = data.encode(\"utf8\")\n        self._file.write(data)", "        self._file.write(data.encode(\"utf8\") if isinstance(data, str) else data)"),
+    Silent("open-mode-from-existence-flag", LOG, "        if os.path.exists(self.path):\n            self._file = cast(BinaryIO, open(self.path, \"rb+\", 0))\n            self._file.seek(0, 2)\n        else:\n            if self.defaultMode is not None:\n                # Set the lowest permissions\n                oldUmask = os.umask(0o777)\n                try:\n                    self._file = cast(BinaryIO, open(self.path, \"wb+\", 0))\n                finally:\n                    os.umask(oldUmask)\n            else:\n                self._file = cast(BinaryIO, open(self.path, \"wb+\", 0))\n",
+           "        present = os.path.exists(self.path)\n        tighten = not present and self.defaultMode is not None\n        if tighten:\n            oldUmask = os.umask(0o777)\n        try:\n            self._file = cast(BinaryIO, open(self.path, \"rb+\" if present else \"wb+\", 0))\n        finally:\n            if tighten:\n                os.umask(oldUmask)\n        if present:\n            self._file.seek(0, 2)\n"),
     Silent("branches-swapped", LOG, "            if self.maxRotatedFiles is not None and i >= self.maxRotatedFiles:\n                os.remove(\"%s.%d\" % (self.path, i))\n            else:\n                os.rename(\"%s.%d\" % (self.path, i), \"%s.%d\" % (self.path, i + 1))",
            "            if self.maxRotatedFiles is None or i < self.maxRotatedFiles:\n                os.rename(\"%s.%d\" % (self.path, i), \"%s.%d\" % (self.path, i + 1))\n            else:\n                os.remove(\"%s.%d\" % (self.path, i))"),
     Silent("rotation-steps-in-private-helpers", LOG,
